@@ -48,9 +48,10 @@ func (g *guards) put(b []byte, hi bool) ([]byte, *mon.Guard) {
 
 // runner executes hostile inputs against one entry point inside one case.
 type runner struct {
-	x  *mon.Ctx
-	gs *guards
-	st *sites
+	x          *mon.Ctx
+	gs         *guards
+	st         *sites
+	bothAlways bool // both guard placements for every input also in the quick tier
 }
 
 type tally struct{ calls, values, errors, skipped int }
@@ -92,7 +93,7 @@ func (r *runner) run(c *mon.Case, e *entry, ms []mutant) {
 	}
 	var cf caseFindings
 	var t tally
-	both := r.x.Thorough()
+	both := r.x.Thorough() || r.bothAlways
 	for i, m := range ms {
 		if e.kdf && !m.isNil && !workOK(m.b) {
 			t.skipped++
@@ -170,6 +171,9 @@ func sweep(x *mon.Ctx, tiersOnly bool) {
 			c.End()
 		}
 		for _, kind := range []int{kTiny, kCross} {
+			if tiersOnly {
+				break // tiny inputs, type confusion and OID edits never reach the tier-dependent primitive: left to c13.sweep
+			}
 			n := positions(kind, nil, w)
 			for lo := 0; lo < n; lo += e.chunk {
 				hi := min(lo+e.chunk, n)
@@ -188,7 +192,10 @@ func sweep(x *mon.Ctx, tiersOnly bool) {
 		}
 		for _, sn := range e.seeds {
 			a := w.get(sn)
-			for kind := kTrunc; kind <= kRelen; kind++ {
+			for kind := kTrunc; kind <= kOID; kind++ {
+				if tiersOnly && kind == kOID {
+					continue
+				}
 				n := positions(kind, a, w)
 				step := e.chunk
 				if kind == kDER {
